@@ -233,7 +233,7 @@ def model_text():
 
 
 def build():
-    u = Unit('errmap', ['C09', 'C14', 'C04', 'C02', 'C08'])
+    u = Unit('errmap', ['C09', 'C14', 'C04', 'C02', 'C08', 'C03'])
     common.http_base(u)
     common.metadata_core(u, props_sanitize=('C08',))
     common.status_decls(u)
@@ -249,8 +249,15 @@ impl Status {
         ensures
             %s,
     { unimplemented!() }
+    // A-tonic-status-02: Status::add_header, PROVED on the real body in unit `status` (identical clause text); not called by the
+    // code of this unit as it stands, stated so that a variant of it that writes the status by hand is still decided
+    #[verifier::external_body]
+    pub fn add_header(&self, header_map: &mut HeaderMap) -> (r: Result<(), Status>)
+        ensures
+            %s,
+    { unimplemented!() }
 }
-""" % common._ens(common.CONTRACTS['into_http']))
+""" % (common._ens(common.CONTRACTS['into_http']), common._ens(common.CONTRACTS['add_header'])))
     def msg_string(t):
         t.sub_code('R12', r'impl Into<String>', 'impl IntoString')
     BOXERR = r"Box<dyn Error \+ Send \+ Sync \+ 'static>"
@@ -349,7 +356,7 @@ impl Status {
              Clause('P1_a_response_passes_with_its_body_wrapped',
                     'r matches Poll::Ready(Ok(out)) ==> ((exists|res: http::Response<ResBody>| old(self).inner.resolves(Ok(res)) && out.body.inner == Some(res.body) && out.headers == res.headers && out.status == res.status) || (exists|e: Box<DynError>| old(self).inner.resolves(Err(e)) && box_meaning(*e) is Some))', ['C02']),
              Clause('P2_a_recognised_error_becomes_a_trailers_only_response_spelling_its_status',
-                    'r matches Poll::Ready(Ok(out)) ==> (out.body.inner is None ==> exists|e: Box<DynError>, st: Status| #![trigger old(self).inner.resolves(Err(e)), written(st, %s, out.headers@)] old(self).inner.resolves(Err(e)) && box_meaning(*e) is Some && agrees(st, box_meaning(*e)->Some_0) && out.status == http::StatusCode::OK && written(st, %s, out.headers@))' % (CT, CT)),
+                    'r matches Poll::Ready(Ok(out)) ==> (out.body.inner is None ==> exists|e: Box<DynError>, st: Status| #![trigger old(self).inner.resolves(Err(e)), written(st, %s, out.headers@)] old(self).inner.resolves(Err(e)) && box_meaning(*e) is Some && agrees(st, box_meaning(*e)->Some_0) && out.status == http::StatusCode::OK && written(st, %s, out.headers@))' % (CT, CT), ['C09', 'C14', 'C04', 'C02', 'C03']),
              Clause('P3_an_unrecognised_error_is_passed_on', 'r matches Poll::Ready(Err(e)) ==> old(self).inner.resolves(Err(e)) && box_meaning(*e) is None'),
          ])
     BH = 'impl<B: FrameBody> ResponseBody<B> {'
